@@ -119,14 +119,20 @@ def design_level(pid, tier, seed, scale):
     jobs = P.get('mc_quick', ['MC_quick.cfg']) if tier == 'quick' else \
         P.get('mc_quick', ['MC_quick.cfg']) + P.get('mc_thorough', [])
     for job in jobs:
-        cfg, tmo = (job, 900) if isinstance(job, str) else job
+        if isinstance(job, str):
+            cfg, tmo, module = job, 900, 'FBRefMC.tla'
+        elif len(job) == 2:
+            cfg, tmo, module = job[0], job[1], 'FBRefMC.tla'
+        else:
+            cfg, tmo, module = job
         try:
-            ok, st, out = tlc.model_check(cfg, 'FBRefMC.tla', workers=16, timeout=tmo + 60,
+            ok, st, out = tlc.model_check(cfg, module, workers=16, timeout=tmo + 60,
                                           extra=(), heap='12g', soft_timeout=tmo)
         except Exception as x:      # noqa
             mach.append(('mc:' + cfg, repr(x)[:1000]))
             continue
         st['cfg'] = cfg
+        st['module'] = module
         st['exhaustive'] = bool(ok and not st.get('timed_out'))
         stats.append(st)
         if not ok and not st.get('timed_out'):
@@ -381,9 +387,100 @@ def replay(pid, path):
     return 0
 
 
-def selftest():
-    print('selftest not built yet')
-    return 0
+def selftest(with_mutants=True):
+    """Show that the binding binds (DESIGN 3.5): corrupted / truncated traces are rejected at the right
+    event, the mechanism models find the known races when the repairs are switched off, and every seeded
+    change in /verif/seeded is caught by the check of the property it breaks (run on a scratch copy)."""
+    import copy
+    import glob
+    import shutil
+    import subprocess
+    import tempfile
+    ok = True
+    t = None
+    for sd in range(200):       # a base trace with an invocation, a reuse and a committed build
+        sc = gen.make_scenario(sd, 'rebuild')
+        t = runner._run_one(sc)
+        evs = t['events']
+        if any(e['ev'] == 'invoke' for e in evs) and any(e['ev'] == 'bf_end' and not e['inv'] and e['out'] == 'ok' for e in evs) \
+                and any(e['ev'] == 'q' and e['res'].get('ok') and isinstance(e['res'].get('v'), bool) for e in evs):
+            break
+    v, _ = tlc.validate([t], jobs=1, open_kf=runner.open_kf_names())
+    base = v[t['id']]
+    print('selftest: base trace', base['verdict'], len(t['events']), 'events')
+    ok &= base['verdict'] == 'accepted'
+    variants = []
+    # (1) corrupt one logged field
+    for i, e in enumerate(t['events']):
+        if e['ev'] == 'q' and e['res'].get('ok') and isinstance(e['res'].get('v'), bool):
+            t2 = copy.deepcopy(t)
+            t2['id'] = 'corrupt-answer-%d' % i
+            t2['events'][i]['res']['v'] = not e['res']['v']
+            variants.append((t2, i + 1, 'AnswerMatches'))
+            break
+    for i, e in enumerate(t['events']):
+        if e['ev'] in ('bf_end', 'sb_end') and not e['inv'] and e['out'] == 'ok':
+            t2 = copy.deepcopy(t)
+            t2['id'] = 'corrupt-inv-%d' % i
+            t2['events'][i]['ret'] = {'k': 'str', 's': 'tampered'}
+            variants.append((t2, i + 1, 'PersistedEqualsReturned'))
+            break
+    for i, e in enumerate(t['events']):
+        if e['ev'] == 'build_end' and e['out'] == 'returned' and len(e['disk']) > 2:
+            t2 = copy.deepcopy(t)
+            t2['id'] = 'corrupt-snapshot-%d' % i
+            t2['events'][i]['disk'] = [x for x in e['disk'] if x['p'] != e['disk'][-1]['p'] or x['p'] == ['k']][:-1] \
+                if e['disk'][-1]['p'] != ['k'] else e['disk'][:-2] + e['disk'][-1:]
+            variants.append((t2, i + 1, None))
+            break
+    # (2) remove one event (an invocation): the following events no longer fit
+    for i, e in enumerate(t['events']):
+        if e['ev'] == 'invoke':
+            t2 = copy.deepcopy(t)
+            t2['id'] = 'drop-invoke-%d' % i
+            del t2['events'][i]
+            variants.append((t2, None, None))
+            break
+    vv, _ = tlc.validate([x[0] for x in variants], jobs=4, open_kf=runner.open_kf_names())
+    for t2, at, clause in variants:
+        r = vv[t2['id']]
+        good = r['verdict'] == 'rejected' and (at is None or r['at'] == at) and (clause is None or r['clause'] == clause)
+        print('selftest: %-28s -> %s at %s clause %s %s' % (t2['id'], r['verdict'], r['at'], r['clause'], 'OK' if good else 'UNEXPECTED'))
+        ok &= good
+    # (3) the mechanism models have teeth
+    for cfg, module, inv in [('Conc_A_noD7.cfg', 'FBConcMC.tla', 'DirsOwned'), ('Conc_B_noD16.cfg', 'FBConcMC.tla', 'WinnerOutputIntact'),
+                             ('Fence_root_late.cfg', 'FBFence.tla', 'RootReturnedBeforeWrite')]:
+        good, st, out = tlc.model_check(cfg, module, workers=8, timeout=300)
+        hit = ('Invariant %s is violated' % inv) in out
+        print('selftest: %-22s expects violation of %-24s -> %s' % (cfg, inv, 'found' if hit else 'NOT FOUND'))
+        ok &= hit
+    # (4) seeded changes
+    if with_mutants:
+        for d in sorted(glob.glob(os.path.join(runner.VERIF, 'seeded', '*'))):
+            meta = json.load(open(os.path.join(d, 'meta.json')))
+            pid = meta['breaks_property']
+            wt = tempfile.mkdtemp(prefix='fbv_mut_', dir='/tmp')
+            outd = tempfile.mkdtemp(prefix='fbv_mutout_', dir='/tmp')
+            try:
+                subprocess.run(['git', '-C', os.environ.get('FBV_REPO', '/repo'), 'worktree', 'add', '-q', '--detach',
+                                '-f', wt, 'HEAD'], check=True)
+                a = subprocess.run(['git', '-C', wt, 'apply', os.path.join(d, 'patch.diff')])
+                if a.returncode != 0:
+                    print('selftest: %-10s patch no longer applies (skipped)' % os.path.basename(d))
+                    continue
+                env = dict(os.environ, FBV_REPO=wt, FBV_OUT_DIR=outd, PYTHONPATH=runner.VERIF + ':' + wt)
+                p = subprocess.run([os.path.join(runner.VERIF, 'check'), pid, '--tier', 'quick'], env=env,
+                                   stdout=subprocess.PIPE, stderr=subprocess.STDOUT, text=True)
+                n = p.stdout.count('VIOLATION property=%s' % pid)
+                print('selftest: seeded %-10s breaks %s -> exit %d, %d VIOLATION line(s) %s'
+                      % (os.path.basename(d), pid, p.returncode, n, 'OK' if p.returncode == 1 and n else 'MISSED'))
+                ok &= (p.returncode == 1 and n > 0)
+            finally:
+                subprocess.run(['git', '-C', os.environ.get('FBV_REPO', '/repo'), 'worktree', 'remove', '--force', wt])
+                shutil.rmtree(wt, ignore_errors=True)
+                shutil.rmtree(outd, ignore_errors=True)
+    print('SELFTEST', 'PASSED' if ok else 'FAILED')
+    return 0 if ok else 1
 
 
 # ---------------------------------------------------------------------------
